@@ -380,7 +380,32 @@ func (vc *VC) assumeAutoLemma(name string) {
 	if len(pats) == 0 {
 		vc.errorf(token.NoPos, "lemma %s used automatically needs a trigger", lm.Name)
 	}
-	vc.assumeGlobal(Forall(bvs, pats, Implies(And(pre...), And(post...))))
+	// relevant when any function symbol of its triggers is
+	var keys []string
+	for _, pat := range pats {
+		for _, t := range pat {
+			keys = append(keys, headSymbols(t.S)...)
+		}
+	}
+	vc.assumeAxiom(Forall(bvs, pats, Implies(And(pre...), And(post...))), keys...)
+}
+
+// headSymbols lists the g!/sqrt function symbols occurring in an SMT term.
+func headSymbols(s string) []string {
+	var out []string
+	for i := 0; i < len(s); i++ {
+		if s[i] == '(' {
+			j := i + 1
+			for j < len(s) && s[j] != ' ' && s[j] != ')' && s[j] != '(' {
+				j++
+			}
+			sym := s[i+1 : j]
+			if strings.HasPrefix(sym, "g!") || sym == "sqrt" {
+				out = append(out, sym)
+			}
+		}
+	}
+	return out
 }
 
 // firstEmbeds reports whether struct type outer contains inner at offset zero (transitively).
